@@ -493,13 +493,20 @@ def _passes_replace(ctx, handler):
     fn = m.lookup_method(SL + ".Parser", handler)
     if fn is None:
         raise AnalysisError("anchor vanished: %s.Parser.%s" % (SL, handler))
+    seen = set()
     for p in A.Interp(fn, P, try_raises=False).paths():
         for e in p.effects:
             if e[0] == "call" and e[1][1][0] == "attr" and e[1][1][2] in (
                     "addValue", "importSchemaComponent"):
-                if "self.replace(" in A.fmt(e[1]):
-                    return True
-    return False
+                args = e[1][2]
+                if any(A.is_const(a) and a[1] == "" for a in args):
+                    continue     # an absent value is stored as '' as it is
+                seen.add("self.replace(" in A.fmt(e[1]))
+    if seen == {True}:
+        return True
+    if seen == {False} or not seen:
+        return False
+    return "on some paths only"
 
 
 def _order(ctx, fn):
